@@ -154,6 +154,14 @@ def replay_flex_negative_factor():
     return r[0][3] != 100
 
 
+def replay_grid_inflexible_fr():
+    # grid-template-columns: minmax(20px, 0.5fr) 3fr in 64px: the first track keeps its 20px minimum (its share would be
+    # 9.1px), the fr size is found again without it: 20 + 44
+    r = _grid_rects('width:64px;grid-template-columns:minmax(20px, 0.5fr) 3fr;justify-content:start',
+                    ['height:5px', 'height:5px'])
+    return r[1][3] != 44
+
+
 def replay_grid_justify_self_outer():
     r = _grid_rects('', ['justify-self:start;width:20px;padding:0 5px;height:5px'])
     return r[0][3] != 30
@@ -181,6 +189,7 @@ FINDINGS = {
     'grid-negative-line-numbers': replay_grid_negative_line,
     'grid-maximize-no-redistribution': replay_grid_maximize,
     'grid-leading-implicit-tracks-misindexed': replay_grid_leading_implicit_tracks,
+    'grid-inflexible-fr-no-restart': replay_grid_inflexible_fr,
 }
 
 # findings repaired in /repo (`fixed:` lines): their replay functions are regression cases; each must stay False
@@ -445,6 +454,16 @@ class C12(PropCheck):
                                                                           'regression': ident}, tags=[ident])
         sec_reg.flush()
 
+        sec_tf = tolerant_section(
+            run, 'grid-tracks-family',
+            'deterministic: _resolve_tracks_sizes on a definite axis mixing a minmax(<length>, <length>) track that reaches '
+            'its growth limit in 1.3 with flexible / stretched auto / fixed tracks (boxes 100 and 240, gaps 0 and 10, both '
+            'directions): 1.3 -> 1.4 -> 1.5 hand over the free space that is really left; non-trivial = always')
+        for case in gx.tracks_family():
+            sec_tf.add(gx.wire_tracks_case(case), docs.outcome(lambda: gx.run_tracks_case(case)),
+                       meta={'kind': 'tracks', 'case': case}, tags=[case['dir'], case['stretch']])
+        sec_tf.flush()
+
         sec_dense = tolerant_section(
             run, 'grid-dense-family',
             'deterministic: dense packing x {row, column} flow, automatic items that leave a hole before the cursor, '
@@ -629,7 +648,7 @@ class C12(PropCheck):
             'never_hit': [b for b in FLEX_BRANCHES + GRID_BRANCHES if b not in hit],
             'unlisted': sorted(t for t in hit if ':' in t and t not in known and not t.startswith(('justify:',))),
             'histogram': {s.name: dict(s.tags) for s in (sec, sec_adv, sec_g)}}
-        for s in (sec_reg, sec_dense, sec, sec_adv, sec_r, sec_g, sec_sh):
+        for s in (sec_reg, sec_tf, sec_dense, sec, sec_adv, sec_r, sec_g, sec_sh):
             s.flush()
             rounding[s.name] = s.float_rounding
         run.extra['float_rounding'] = rounding
@@ -956,6 +975,43 @@ def bounded_tracks_violation(case, out):
     return None
 
 
+def tracks_fit_violation(case, out):
+    """css-grid 12.3-12.7 on a definite axis without items, tracks `px` / `%` / `minmax(<length>, <length> | <flex>)` /
+    `<flex>`: when the minimum sizes and the gaps fit in the container, the tracks and the gaps never overflow it
+    (maximize, expand-flexible and stretch only hand out free space that exists), and they fill it exactly when a
+    flexible track with an `auto` minimum can absorb what is left (factor sum >= 1, or any factor sum under
+    `normal` / `stretch` content alignment, where the auto minimum is stretched)."""
+    def length(b):
+        return F(b[1]) if b[0] == 'px' else F(case['box']) * F(b[1]) / 100
+    lows, frs, absorbing = [], F(0), True
+    for mn, mx in case['fns']:
+        if isinstance(mx, str) or (isinstance(mn, str) and mn != 'auto'):
+            return None                  # content-sized tracks: not judged here
+        if mx[0] == 'fr':
+            if mn != 'auto':
+                return None              # known finding grid-inflexible-fr-no-restart (a flexible track below its minimum)
+            frs += F(mx[1])
+            lows.append(F(0))
+        elif mn == 'auto':
+            return None
+        else:
+            lows.append(length(mn))
+    n = len(lows)
+    room = F(case['box']) - F(case['gap']) * (n - 1)
+    if sum(lows) > room:
+        return None
+    sizes = [F(t[0]) for t in sx.loads_line(out)[0]]
+    total = sum(sizes) + F(case['gap']) * (n - 1)
+    if total > F(case['box']) + F(1, 10**6):
+        return (f'tracks {case["fns"]} in {case["box"]} with gap {case["gap"]}: sizes {[float(v) for v in sizes]} and the '
+                f'gaps add up to {float(total)}: they overflow the container although the minimum sizes fit')
+    fills = frs >= 1 or (frs > 0 and case['stretch'] in ('normal', 'stretch'))
+    if fills and absorbing and abs(total - F(case['box'])) > F(1, 10**6):
+        return (f'tracks {case["fns"]} in {case["box"]} with gap {case["gap"]}: sizes {[float(v) for v in sizes]} and the '
+                f'gaps add up to {float(total)}, not to the container size, although a flexible track can absorb the rest')
+    return None
+
+
 def tracks_violation(case, out):
     """`tracks_partition` stated on `_resolve_tracks_sizes`: with a definite box size, no item, px / % tracks and at
     least one `fr` track (factor sum >= 1) whose share is not below a fixed minimum: sizes + gaps = box size,
@@ -964,7 +1020,7 @@ def tracks_violation(case, out):
         return None if case['contribs'] else f'_resolve_tracks_sizes raised {out[4:]}'
     if case['box'] == 'auto' or case['contribs']:
         return None
-    bounded = bounded_tracks_violation(case, out)
+    bounded = bounded_tracks_violation(case, out) or tracks_fit_violation(case, out)
     if bounded:
         return bounded
     fns = case['fns']
